@@ -123,6 +123,42 @@ func (c *Ctx) entropyClasses(n int, each func(class string, e []byte)) {
 	for i := 0; i < 4*c.scale; i++ {
 		each("random", c.randBytes(n))
 	}
+	// entropies that look like text: hex digits (either case), decimal digits, letters, base64 — an
+	// implementation that "helpfully" decodes such input loses or merges entropy bits
+	for _, alphabet := range []string{"0123456789abcdef", "0123456789ABCDEF", "0123456789", "abcdefghijklmnopqrstuvwxyz",
+		"ABCDEFGHIJKLMNOPQRSTUVWXYZabcdefghijklmnopqrstuvwxyz0123456789+/", " ", "0"} {
+		e := make([]byte, n)
+		for i := range e {
+			e[i] = alphabet[c.rng.Intn(len(alphabet))]
+		}
+		each("text-like", e)
+	}
+	for i := 0; i < n && i < 32; i += 4 {
+		// 000102…, the classic test pattern, as bytes and as its own hex text
+		e := make([]byte, n)
+		for k := range e {
+			e[k] = byte(k + i)
+		}
+		each("counting-bytes", e)
+		each("text-like", []byte(hx(e))[:n])
+	}
+	// families E, E||00…, E||00…00 across the legal sizes, encoded back to back in both orders: a result
+	// remembered under a key that forgets the length is returned for the wrong entropy
+	if n == 16 {
+		base := c.randBytes(16)
+		fam := [][]byte{}
+		for _, m := range entSizes {
+			f := make([]byte, m)
+			copy(f, base)
+			fam = append(fam, f)
+		}
+		for _, f := range fam {
+			each("zero-extension-family", f)
+		}
+		for i := len(fam) - 1; i >= 0; i-- {
+			each("zero-extension-family", fam[i])
+		}
+	}
 }
 
 // extremeWordEntropies yields, for language li and size n, entropies whose words are the extreme
@@ -267,6 +303,32 @@ func (c *Ctx) c09Entropy() {
 			if ok && impl == "ok _" {
 				c.rep.violate(Violation{Kind: "property", Class: "entropy-length-sweep", Op: fmt.Sprintf("enc %d <%d bytes>", langVals[li], n), Impl: impl, Detail: "empty mnemonic on success"})
 			}
+		}
+	}
+	// a legal call, then the same bytes with zero bytes appended or trailing zero bytes removed (illegal
+	// sizes), in the same language: must still be ("", ErrEntropyLen) — a lookup in a memo keyed without the
+	// length that runs before the length check returns the remembered mnemonic instead
+	for _, m := range entSizes {
+		for _, li := range []int{2, 6} {
+			l := int64(langVals[li])
+			e := c.randBytes(m)
+			c.enc("legal-then-padded", l, e)
+			for _, pad := range []int{1, 2, 3, 5, 16} {
+				if m+pad <= 36 {
+					c.enc("legal-then-padded", l, append(append([]byte{}, e...), make([]byte, pad)...))
+				}
+			}
+			z := make([]byte, m)
+			copy(z, e[:m/2]) // the second half is zero
+			c.enc("legal-then-truncated", l, z)
+			for cut := 1; cut <= m/2; cut += 3 {
+				c.enc("legal-then-truncated", l, z[:m-cut])
+			}
+			c.enc("legal-then-truncated", l, []byte{})
+			zero := make([]byte, m)
+			c.enc("legal-then-truncated", l, zero)
+			c.enc("legal-then-truncated", l, zero[:m-1])
+			c.enc("legal-then-truncated", l, nil)
 		}
 	}
 	// nil slice and wrapped-around lengths
